@@ -113,37 +113,45 @@ mod __verif_c06 {
         std::mem::forget(p);
     }
 
-    // @harness tiers=experimental timeout=2400
+    fn logic_case(is_and: bool, negate: bool) {
+        let x: i64 = kani::any();
+        let (v1, v2): (i64, i64) = kani::any();
+        let (op1, op2) = (any_cmp(), any_cmp());
+        let arr = Int64Array::new(ScalarBuffer::from(vec![x]), None);
+        // the program lives in a local array; the Vec only borrows it (never dropped: forget below), so CBMC reads each
+        // instruction's variant as the constant it is instead of exploring every instruction kind per slot
+        let mut prog_arr = [
+            Instr::CmpI64 { a: Src::Col(0), b: Src::LitI64(v1), op: op1, dst: 0 },
+            Instr::CmpI64 { a: Src::Col(0), b: Src::LitI64(v2), op: op2, dst: 1 },
+            if is_and { Instr::And { a: 0, b: 1, dst: 2 } } else { Instr::Or { a: 0, b: 1, dst: 2 } },
+            Instr::Not { a: 2, dst: 3 },
+        ];
+        let prog = unsafe { Vec::from_raw_parts(prog_arr.as_mut_ptr(), 4, 4) };
+        // ManuallyDrop: not even a panic unwinding during native replay may free the borrowed array
+        let p = std::mem::ManuallyDrop::new(pred(prog, if negate { 3 } else { 2 }, 0, 4));
+        let got = run1(&p, &[ColArr::I64(&arr)]);
+        let (c1, c2) = (row_int(op1, x, v1), row_int(op2, x, v2));
+        let inner = if is_and { c1 && c2 } else { c1 || c2 };
+        let want = if negate { !inner } else { inner };
+        kani::cover!(got == 1);
+        kani::cover!(got == 0);
+        assert!(got == want as u8, "C06.and_or_not_match_interpreter");
+        std::mem::forget(p);
+        std::mem::forget(prog_arr);
+        std::mem::forget(arr);
+    }
+
+    // @harness tiers=quick,thorough timeout=900
     // @encodes physical::compiled_expr::CompiledPredicate::eval_chunk (Instr::And, Instr::Or, Instr::Not over mask registers)
-    // @bounds 1 row; program = [x op1 v1 -> m0, x op2 v2 -> m1, (AND|OR) m0 m1 -> m2, NOT m2 -> m3] with symbolic operators/literals; output register m2 or m3 (symbolic)
+    // @bounds 1 row; program = [x op1 v1 -> m0, x op2 v2 -> m1, (AND|OR) m0 m1 -> m2, NOT m2 -> m3] with symbolic operators/literals; the connective and the output register (m2 or m3) iterated concretely
     // @oracle two-valued AND / OR / NOT of the two comparison results (the rows are non-NULL here)
     // @unwindset extend_with:6
     // @unwindloop 6 for ins in &self.prog {
     #[kani::proof]
     #[kani::unwind(2)]
     fn and_or_not_over_two_comparisons() {
-        let x: i64 = kani::any();
-        let (v1, v2): (i64, i64) = kani::any();
-        let (op1, op2) = (any_cmp(), any_cmp());
-        let is_and: bool = kani::any();
-        let negate: bool = kani::any();
-        let arr = Int64Array::new(ScalarBuffer::from(vec![x]), None);
-        let prog = vec![
-            Instr::CmpI64 { a: Src::Col(0), b: Src::LitI64(v1), op: op1, dst: 0 },
-            Instr::CmpI64 { a: Src::Col(0), b: Src::LitI64(v2), op: op2, dst: 1 },
-            if is_and { Instr::And { a: 0, b: 1, dst: 2 } } else { Instr::Or { a: 0, b: 1, dst: 2 } },
-            Instr::Not { a: 2, dst: 3 },
-        ];
-        let p = pred(prog, if negate { 3 } else { 2 }, 0, 4);
-        let got = run1(&p, &[ColArr::I64(&arr)]);
-        let (c1, c2) = (row_int(op1, x, v1), row_int(op2, x, v2));
-        let inner = if is_and { c1 && c2 } else { c1 || c2 };
-        let want = if negate { !inner } else { inner };
-        kani::cover!(got == 1 && negate && !is_and);
-        kani::cover!(got == 0 && !negate && is_and);
-        assert!(got == want as u8, "C06.and_or_not_match_interpreter");
-        std::mem::forget(p);
-        std::mem::forget(arr);
+        logic_case(true, false);
+        logic_case(false, true);
     }
 
     fn f64_case(special: bool) {
@@ -218,17 +226,19 @@ mod __verif_c06 {
         let op = any_cmp();
         let arr = Float64Array::new(ScalarBuffer::from(vec![x]), None);
         let (ra, rb) = if swap { (1u8, 0u8) } else { (0u8, 1u8) };
-        let prog = vec![
+        let mut prog_arr = [
             Instr::LoadF64 { col: 0, dst: 0 },
             Instr::LitF64 { v: c, dst: 1 },
             Instr::Arith { op: aop, a: ra, b: rb, dst: 2 },
             Instr::CmpF64 { a: Src::Reg(2), b: Src::LitF64(v), op, dst: 0 },
         ];
-        let p = pred(prog, 0, 3, 1);
+        let prog = unsafe { Vec::from_raw_parts(prog_arr.as_mut_ptr(), 4, 4) };
+        let p = std::mem::ManuallyDrop::new(pred(prog, 0, 3, 1));
         let got = run1(&p, &[ColArr::F64(&arr)]);
         kani::cover!(got == 1 && k == 3 && swap);
         assert!(got == row_f64(op, res, v) as u8, "C06.arith_then_compare_matches_interpreter");
         std::mem::forget(p);
+        std::mem::forget(prog_arr);
         std::mem::forget(arr);
     }
 
